@@ -680,7 +680,8 @@ package graph
 //@   after "visited[u.v] = struct{}{}" set fin = ite(!frozen && u.distance < 2147483647, add(fin, u.v), fin)
 //@   after "visited[u.v] = struct{}{}" set frozen = frozen || !(u.distance < 2147483647)
 //@   after "visited[u.v] = struct{}{}" set cnt = cnt + 1
-//@   after "tempDistance := u.distance" assert [no-wrap-while-finite] imp(!frozen, tempDistance == u.distance + weight && weight == wgt(g, u.v, vhash) && 0 <= weight && tempDistance >= u.distance && tempDistance < 2147483647)
+//@   before "if _, ok := visited[vhash]" assert [weight-in-range] edge(g, u.v, vhash) && weight == wgt(g, u.v, vhash) && 0 <= weight && weight <= 1048576
+//@   after "tempDistance := u.distance" assert [no-wrap-while-finite] imp(!frozen, tempDistance == u.distance + weight && tempDistance >= u.distance && tempDistance < 2147483647)
 //@   loop 1 invariant graphKept() && rmap1 == g.hash && queueItem != nil && fresh(queueItem) && idxinv(queue) && len(queue) == len(seen1)
 //@   loop 1 invariant forall(k, any, has(queueItem, k) == in(k, seen1)) && forall(k, any, imp(in(k, seen1), has(g.hash, k)))
 //@   loop 1 invariant forall(k, any, imp(in(k, seen1), queueItem[k] != nil && fresh(queueItem[k]) && queueItem[k].v == k && queueItem[k].distance == 2147483647 && queueItem[k].previous == nil && inq(queue, queueItem[k])))
